@@ -89,12 +89,13 @@ class Obj:
 
 
 class State:
-    def __init__(self, store, env, facts, objs):
+    def __init__(self, store, env, facts, objs, frames=()):
         self.store, self.env, self.facts, self.objs = store, env, facts, objs
+        self.frames = frames        # (env, objs) of the suspended enclosing calls (closures of nested functions)
 
     def fork(self):
         return State(dict(self.store), dict(self.env), dict(self.facts),
-                     {k: Obj(o.var, o.mutable, o.ty) for k, o in self.objs.items()})
+                     {k: Obj(o.var, o.mutable, o.ty) for k, o in self.objs.items()}, self.frames)
 
 
 class Leaf:
@@ -256,7 +257,7 @@ class Exec:
         if p is not None:
             return self.call_value(p, obj, [], {}, st, guards, e)
         if self.method(e.attr) is not None:
-            return V('func', py=(self.method(e.attr), obj))
+            return V('func', py=(self.method(e.attr), obj, None))
         fail('unknown attribute %s' % ast.unparse(e), e)
 
     # ------------------------------------------------------------------ expressions
@@ -393,30 +394,35 @@ class Exec:
             fail('unsupported use of dict.get', e)
         if fn.ty != 'func':
             fail('unsupported call %s' % ast.unparse(e)[:60], e)
-        node, obj = fn.py
+        node, obj, depth = fn.py
         args = [self.eval(a, st, guards) for a in e.args]
         if any(isinstance(a, ast.Starred) for a in e.args) or any(k.arg is None for k in e.keywords):
             fail('star arguments', e)
         kw = {k.arg: self.eval(k.value, st, guards) for k in e.keywords}
-        return self.call_value(node, obj, args, kw, st, guards, e)
+        return self.call_value(node, obj, args, kw, st, guards, e, depth)
 
     # ------------------------------------------------------------------ calls
-    def bind(self, fn, obj, args, kw, st, node):
-        """environment of the callee: nested functions see the caller's names (closure), methods only `self`"""
+    def bind(self, fn, obj, args, kw, st, node, depth=None):
+        """environment of the callee: a nested function sees the names of the function it was defined in
+        (its values at the time of the call), a method only `self`"""
         a = fn.args
         if a.kwonlyargs or a.kwarg or a.posonlyargs:
             fail('unsupported signature of %s' % fn.name, node)
         params = [p.arg for p in a.args]
         new = st.fork()
+        new.frames = tuple(st.frames) + ((dict(st.env), dict(st.objs)),)
+        defaults = a.defaults
         if obj is not None:
             if not params:
                 fail('method %s without self' % fn.name, node)
             new.env = {}
             new.objs = {params[0]: obj}
             params = params[1:]
-            defaults = a.defaults
-        else:
-            defaults = a.defaults
+        elif depth is not None and depth < len(st.frames):
+            # defined in an enclosing (suspended) call: its names, not the caller's
+            new.env, new.objs = dict(st.frames[depth][0]), dict(st.frames[depth][1])
+        elif depth is not None and depth > len(st.frames):
+            fail('nested function %s called outside the function that defines it' % fn.name, node)
         if len(args) > len(params) and a.vararg is None:
             fail('too many arguments for %s' % fn.name, node)
         bound = {}
@@ -445,13 +451,13 @@ class Exec:
                 new.env[p_] = v
         return new
 
-    def call_tree(self, fn, obj, args, kw, st, node):
+    def call_tree(self, fn, obj, args, kw, st, node, depth=None):
         """execute the body of `fn`; leaves are raise / return"""
         if fn.decorator_list and [ast.unparse(d) for d in fn.decorator_list] != ['property']:
             fail('%s is decorated' % fn.name, node)
         if any(f is fn for f in self.stack) or len(self.stack) > 6:
             fail('recursive / too deeply nested call of %s' % fn.name, node)
-        inner = self.bind(fn, obj, args, kw, st, node)
+        inner = self.bind(fn, obj, args, kw, st, node, depth)
         self.stack.append(fn)
         try:
             t = self.block(strip_doc(fn.body), inner)
@@ -459,9 +465,9 @@ class Exec:
             self.stack.pop()
         return self.map_leaves(t, lambda l: Leaf('return', l.st, None) if l.kind == 'fall' else l)
 
-    def call_value(self, fn, obj, args, kw, st, guards, node):
+    def call_value(self, fn, obj, args, kw, st, guards, node, depth=None):
         """a call inside an expression: the callee must not write, its raises become guards"""
-        t = self.call_tree(fn, obj, args, kw, st, node)
+        t = self.call_tree(fn, obj, args, kw, st, node, depth)
         while True:
             if isinstance(t, Leaf):
                 if t.kind != 'return' or t.val is None:
@@ -510,6 +516,19 @@ class Exec:
                 fail('chained comparison', e)
             op, l, r = e.ops[0], e.left, e.comparators[0]
             g = []
+            if isinstance(op, (ast.In, ast.NotIn)) and isinstance(r, (ast.Tuple, ast.List, ast.Set)):
+                # membership in a literal collection = disjunction of equalities
+                lv = self.eval(l, st, g)
+                cs = [self.equal(lv, self.eval(x, st, g), st, e) for x in r.elts]
+                if g:
+                    fail('a test that may raise', e)
+                if any(c == ('const', True) for c in cs):
+                    c = ('const', True)
+                else:
+                    props = [c[1] for c in cs if c[0] == 'prop']
+                    c = ('const', False) if not props else self.known(
+                        st, props[0] if len(props) == 1 else ' ∨ '.join('(%s)' % q for q in props))
+                return c if isinstance(op, ast.In) else self.negate(c)
             lv, rv = self.eval(l, st, g), self.eval(r, st, g)
             if g:
                 fail('a test that may raise', e)
@@ -691,7 +710,7 @@ class Exec:
         if isinstance(s, ast.FunctionDef):
             if s.decorator_list:
                 fail('decorated nested function %s' % s.name, s)
-            st.env[s.name] = V('func', py=(s, None))
+            st.env[s.name] = V('func', py=(s, None, len(st.frames)))
             return Leaf('fall', st)
         if isinstance(s, (ast.Global, ast.Nonlocal)):
             fail('global / nonlocal', s)
@@ -885,20 +904,20 @@ class Exec:
             return self.guarded(st, g, lambda s_: Leaf('raise', s_, 'TypeError'))
         if fn.ty != 'func':
             fail('unsupported call statement %s' % ast.unparse(call)[:60], call)
-        node, obj = fn.py
+        node, obj, depth = fn.py
         if any(isinstance(a, ast.Starred) for a in call.args) or any(k.arg is None for k in call.keywords):
             fail('star arguments', call)
         args = [self.eval(a, st, g) for a in call.args]
         kw = {k.arg: self.eval(k.value, st, g) for k in call.keywords}
 
         def run(s_):
-            t = self.call_tree(node, obj, args, kw, s_, call)
+            t = self.call_tree(node, obj, args, kw, s_, call, depth)
 
             def back(l):
                 if l.kind != 'return':
                     return l
                 # the callee's locals die, its writes and what was learnt on the path stay
-                s2 = s_.fork()
+                s2 = s_.fork()          # (the caller's names and frames)
                 s2.store = dict(l.st.store)
                 s2.facts = dict(l.st.facts)
                 for k, o in s2.objs.items():
@@ -987,8 +1006,11 @@ def run_function(cls, codes, name, ty, params, other=False):
     st = State(initial(var, ty), {}, {}, {})
     args = [V('obj', py=Obj('b', False, None))] if other else list(params)
     want = [a.arg for a in fn.args.args][1:]
-    if len(want) != len(args):
-        raise TranslateError('C06Result: %s takes %s, expected %d parameter(s)' % (name, want, len(args)))
+    expect = {'update': ['value', 'total'], 'merge': ['other']}.get(name, [])
+    if want != expect or fn.args.vararg or fn.args.kwarg or fn.args.kwonlyargs:
+        raise TranslateError('C06Result: %s takes %s, expected %s (the public signature)' % (name, want, expect))
+    if name == 'update' and [ast.unparse(d) for d in fn.args.defaults] != ['None']:
+        raise TranslateError('C06Result: update: `total` must default to None (and `value` have no default)')
     tree = ex.call_tree(fn, Obj(var, True, ty), args, {}, st, fn)
     return ex, tree, st
 
